@@ -35,7 +35,7 @@ vars == <<fs, script, stale>>
 Init == /\ \E opt \in SUBSET Optional : Cardinality(opt) <= 2 /\ fs = Base \cup opt /\ DepOK(fs)
         /\ script = <<[op |-> "init", files |-> {Path(f) : f \in fs}]>> /\ stale = FALSE
 Step(a) == script' = Append(script, a)
-Gen(d) == /\ \E f \in fs : Under(f, d)                                   \* d is a package directory: it holds Go files
+Gen(d) == /\ \E f \in fs : Under(f, d) /\ IsSource(f)                   \* d is a package directory holding sources of the tool
           /\ fs' = GoGenResult(fs, d, Uses, GenOf) /\ stale' = FALSE     \* the tool leaves no temporary directory
           /\ Step([op |-> "gen", dir |-> d])
 Add == \E f \in Optional : Path(f) \notin {Path(g) : g \in fs} /\ DepOK(fs \cup {f}) /\ fs' = fs \cup {f} /\ Step([op |-> "add", file |-> Path(f)]) /\ UNCHANGED stale
